@@ -462,3 +462,75 @@ Proof.
     destruct (step E s o) as [s' out] eqn:Hstep. simpl. by eapply mint_once_step. }
   apply H. split; [intros n Hn; simpl in Hn; by apply elem_of_nil in Hn|simpl; constructor].
 Qed.
+
+(* ---------- one tracker per external transaction name across the three stores ---------- *)
+
+Definition stores_disjoint (s : state) : Prop :=
+  (forall n, is_Some (ongoing s !! n) -> passed s !! n = None /\ failed s !! n = None) /\
+  (forall n, is_Some (passed s !! n) -> failed s !! n = None).
+
+Lemma disjoint_upd s n t t2 :
+  stores_disjoint s -> ongoing s !! n = Some t -> stores_disjoint (upd_ongoing s (<[n := t2]> (ongoing s))).
+Proof.
+  intros [D1 D2] Ht. split; simpl; [|done].
+  intros n0 Hs. destruct (decide (n0 = n)) as [->|Hne]; [apply D1; by eexists|].
+  rewrite lookup_insert_ne in Hs by done. by apply D1.
+Qed.
+
+Lemma disjoint_transition nl s n s' r : stores_disjoint s -> transition nl s n = (s', r) -> stores_disjoint s'.
+Proof.
+  intros Hd Htr. apply transition_cases in Htr as [->|(t & Ht & Hc)]; [done|].
+  destruct Hc as [(X & _ & ->)|[[_ ->]|[_ ->]]].
+  - by eapply disjoint_upd.
+  - destruct Hd as [D1 D2]. destruct (D1 n ltac:(by eexists)) as [Hp Hf]. split; simpl.
+    + intros n0 Hs. destruct (decide (n0 = n)) as [->|Hne]; [rewrite lookup_delete in Hs; by destruct Hs|].
+      rewrite lookup_delete_ne in Hs by done. rewrite lookup_insert_ne by done. by apply D1.
+    + intros n0 Hs. destruct (decide (n0 = n)) as [->|Hne]; [done|].
+      rewrite lookup_insert_ne in Hs by done. by apply D2.
+  - destruct Hd as [D1 D2]. destruct (D1 n ltac:(by eexists)) as [Hp Hf]. split; simpl.
+    + intros n0 Hs. destruct (decide (n0 = n)) as [->|Hne]; [rewrite lookup_delete in Hs; by destruct Hs|].
+      rewrite lookup_delete_ne in Hs by done. rewrite lookup_insert_ne by done. by apply D1.
+    + intros n0 Hs. destruct (decide (n0 = n)) as [->|Hne]; [rewrite Hp in Hs; by destruct Hs|].
+      rewrite lookup_insert_ne by done. by apply D2.
+Qed.
+
+Lemma disjoint_end_block nl names : forall s s' r, stores_disjoint s -> end_block nl s names = (s', r) -> stores_disjoint s'.
+Proof.
+  induction names as [|n rest IH]; intros s s' r Hd; simpl; [intros [= <- _]; done|].
+  destruct (transition nl s n) as [s1 o1] eqn:H1. destruct (end_block nl s1 rest) as [s2 o2] eqn:H2.
+  intros [= <- _]. eapply IH; [|exact H2]. by eapply disjoint_transition.
+Qed.
+
+Lemma disjoint_step E s o s' r : stores_disjoint s -> step E s o = (s', r) -> stores_disjoint s'.
+Proof.
+  intros Hd. destruct o as [snd x|snd x|n l v idx b|f t0 amt|nl names]; simpl.
+  - unfold do_lock. destruct (x_lock (e_tx E x)); [|intros [= <- _]; done].
+    destruct (negb _); [intros [= <- _]; done|].
+    destruct (has (ongoing s) _) eqn:Ho; simpl; [intros [= <- _]; done|].
+    destruct (has (passed s) _) eqn:Hp; simpl; [intros [= <- _]; done|].
+    intros [= <- _]. apply has_false in Ho, Hp. destruct Hd as [D1 D2]. split; simpl.
+    + intros n0 Hs. destruct (decide (n0 = x_name (e_tx E x))) as [->|Hne]; [by rewrite lookup_delete|].
+      rewrite lookup_insert_ne in Hs by done. rewrite lookup_delete_ne by done. by apply D1.
+    + intros n0 Hs. destruct (decide (n0 = x_name (e_tx E x))) as [->|Hne]; [by rewrite lookup_delete|].
+      rewrite lookup_delete_ne by done. by apply D2.
+  - unfold do_redeem. destruct (x_redeem (e_tx E x)); [|intros [= <- _]; done].
+    destruct (_ <? 0); [intros [= <- _]; done|]. destruct (_ <? 0); [intros [= <- _]; done|].
+    destruct (has (ongoing s) _) eqn:Ho; simpl; [intros [= <- _]; done|].
+    destruct (has (failed s) _) eqn:Hf; simpl; [intros [= <- _]; done|].
+    destruct (has (passed s) _) eqn:Hp; simpl; [intros [= <- _]; done|].
+    intros [= <- _]. apply has_false in Ho, Hf, Hp. destruct Hd as [D1 D2]. split; simpl; [|done].
+    intros n0 Hs. destruct (decide (n0 = x_name (e_tx E x))) as [->|Hne]; [done|].
+    rewrite lookup_insert_ne in Hs by done. by apply D1.
+  - intros Hstep. apply report_cases in Hstep as [->|(t & t' & Ht & _ & _ & _ & _ & Hsh)]; [done|].
+    inversion Hsh; subst; by eapply disjoint_upd.
+  - unfold do_transfer. repeat case_match; intros [= <- _]; done.
+  - intros Hstep. by eapply disjoint_end_block.
+Qed.
+
+Theorem unique_name E ops b : stores_disjoint (run E (init b) ops).
+Proof.
+  assert (H : forall ops s, stores_disjoint s -> stores_disjoint (run E s ops)).
+  { clear ops. induction ops as [|o r IH]; intros s Hs; [done|]. simpl. apply IH.
+    destruct (step E s o) as [s' out] eqn:Hstep. simpl. by eapply disjoint_step. }
+  apply H. split; intros n [? Hs]; simpl in Hs; by rewrite lookup_empty in Hs.
+Qed.
